@@ -345,7 +345,8 @@ func (self *Compiler) compileExpr(node ast.AnalyzedExpression) {
 			opCodeGet := Opcode_GetVarImm
 			opCodeSet := Opcode_SetVarImm
 
-			if lhs.IsGlobal {
+			// A singleton lives in the globals like a global variable (see `compileIdentExpression`).
+			if lhs.IsGlobal || lhs.IsSingleton {
 				opCodeGet = Opcode_GetGlobImm
 				opCodeSet = Opcode_SetGlobImm
 			}
